@@ -708,12 +708,12 @@ def gcd_hard_values(L, mmax=2000, jmax=40, extra_rng=None):
     return out
 
 
-def gcd_sweep(ctx, exe, L, be, thorough=False, ref_exe=None):
+def gcd_sweep(ctx, exe, L, be, thorough=False, ref_exe=None, mmax=2000):
     """oracle-only sweep (no Lean model: ~10^5 calls per level) of fp_is_square / fp_inv / fp_sqrt / fp2_sqrt /
     fp2_inv on binary-GCD-hard operands of back-end `be`; each real result is checked against the exact
     specification. With `ref_exe` (C06) the ref build is run on the fp_is_square / fp_sqrt lines too and must agree."""
     p, V = L.p, L.val
-    vals = gcd_hard_values(L, 2000, 64 if thorough else 40, ctx.rng.fork("gcd:%d" % L.lvl))
+    vals = gcd_hard_values(L, mmax, 64 if thorough else 40, ctx.rng.fork("gcd:%d" % L.lvl))
     lines, chk = [], []
     for idx, (name, v, ls) in enumerate(vals):
         raw = L.mont(v)
